@@ -119,7 +119,7 @@ func TestWitnessTags(t *testing.T) {
 	e := &env{c: c, rig: newRig()}
 	defer e.rig.close()
 	db := &rt.DB{Traces: []*rt.Trace{{ID: tA, Spans: []*rt.Span{wspan("0000000000000001", 10, 1, "a", "x")}}}}
-	chdb, _ := load(db, false)
+	chdb, _ := load(db, false, 0)
 	for _, q := range []string{`{.a = "x"}`, `{}`} {
 		for _, key := range []string{"", "a"} {
 			vals, a, err := e.rig.tagsValues(chdb, &request{Script: q, StartS: wS, EndS: wS + 100, Limit: 2000}, key)
